@@ -94,10 +94,10 @@ impl<A: Ord> PartialOrd for VClock<A> {
     fn partial_cmp(&self, other: &VClock<A>) -> Option<Ordering> {
         if self == other {
             Some(Ordering::Equal)
-        } else if other.dots.iter().all( /*@<*/ |(w, c)| /*@>*/ /*@ |p: (&A, &u64)| -> (b: bool) ensures actor_ok::<A>() ==> b == (cnt(self@, *p.0) >= *p.1) { let (w, c) = p; @*/ self.get(w) >= *c /*@ } @*/ ) {
+        } else if other.dots.iter().all( /*@<*/ | /*@>*/ /*@<pat1*/ (w, c) /*@>*/ /*@<*/ | /*@>*/ /*@ |p: (&A, &u64)| -> (b: bool) ensures actor_ok::<A>() ==> b == (cnt(self@, *p.0) >= *p.1) { let $pat1 = p; @*/ self.get(w) >= *c /*@ } @*/ ) {
             //@ proof { if actor_ok::<A>() { assert forall|a: A| cnt(other@, a) <= cnt(self@, a) by { if other@.contains_key(a) {} } } }
             Some(Ordering::Greater)
-        } else if self.dots.iter().all( /*@<*/ |(w, c)| /*@>*/ /*@ |p: (&A, &u64)| -> (b: bool) ensures actor_ok::<A>() ==> b == (cnt(other@, *p.0) >= *p.1) { let (w, c) = p; @*/ other.get(w) >= *c /*@ } @*/ ) {
+        } else if self.dots.iter().all( /*@<*/ | /*@>*/ /*@<pat2*/ (w, c) /*@>*/ /*@<*/ | /*@>*/ /*@ |p: (&A, &u64)| -> (b: bool) ensures actor_ok::<A>() ==> b == (cnt(other@, *p.0) >= *p.1) { let $pat2 = p; @*/ other.get(w) >= *c /*@ } @*/ ) {
             //@ proof { if actor_ok::<A>() { assert forall|a: A| cnt(self@, a) <= cnt(other@, a) by { if self@.contains_key(a) {} } } }
             Some(Ordering::Less)
         } else {
@@ -381,7 +381,7 @@ impl<A: Ord> VClock<A> {
     {
         self.dots = /*@ shim_btreemap_filter_map_collect( @*/ mem::take(&mut self.dots)
             /*@<*/ .into_iter()
-            .filter_map( /*@>*/ /*@ , @*/ /*@<*/ |(actor, count)| /*@>*/ /*@ |p: (A, u64)| -> (o: Option<(A, u64)>) ensures o == (if min64(p.1, cnt(other@, p.0)) == 0 { None } else { Some((p.0, min64(p.1, cnt(other@, p.0)))) }) { let (actor, count) = p; @*/ {
+            .filter_map( /*@>*/ /*@ , @*/ /*@<*/ | /*@>*/ /*@<pat*/ (actor, count) /*@>*/ /*@<*/ | /*@>*/ /*@ |p: (A, u64)| -> (o: Option<(A, u64)>) ensures o == (if min64(p.1, cnt(other@, p.0)) == 0 { None } else { Some((p.0, min64(p.1, cnt(other@, p.0)))) }) { let $pat = p; @*/ {
                 // Since an actor missing from the dots map has an implied
                 // counter of 0 we can save some memory, and remove the actor.
                 let min_count = cmp::min(count, other.get(&actor));
